@@ -197,11 +197,19 @@ def validate_rows(chk, module, row_files, constants=None, *, name="rows", timeou
         done = None
         for v in res.printed():
             if isinstance(v, list) and v and v[0] == "MISMATCH":
-                mism.append((v[1], tlc.unset(v[2])))
+                exp = v[2]
+                if isinstance(exp, str):
+                    try:
+                        exp = json.loads(exp)
+                    except ValueError:
+                        pass
+                mism.append((v[1], tlc.unset(exp)))
             elif isinstance(v, list) and v and v[0] == "DONE":
                 done = v
         if done is None:
             raise MachineryFailure(f"row validator {module} did not finish on {f}:\n{res.tail(30)}")
+        if getattr(res, "unparsed", 0):
+            raise MachineryFailure(f"row validator {module}: {res.unparsed} printed values could not be read back")
         total_rows += done[1]
         total_bad += done[2]
         agg_states += res.distinct
@@ -221,7 +229,9 @@ def validate_rows(chk, module, row_files, constants=None, *, name="rows", timeou
             out.append((rid, exp))
     if canary:
         if not any(rid == CANARY_ID for rid, _ in out):
-            raise MachineryFailure(f"{module}:{name}: the corrupted canary row was NOT rejected - validator is not binding")
+            cres = [r for f, r in results if f == canary][0]
+            raise MachineryFailure(f"{module}:{name}: the corrupted canary row was NOT rejected - validator is not binding\n"
+                                   + open(canary).read()[:1500] + "\n" + cres.tail(15))
         out = [(rid, e) for rid, e in out if rid != CANARY_ID]
         total_rows -= 1
         total_bad -= 1
